@@ -282,6 +282,11 @@ def run(cx, rep):
                         rep.ob("C10.2", "%s/ptr-to-int" % f.id, False, "pointer address converted to integer", "%s:%s" % (f.file, st.get("line")))
     rep.ob("C10.2", "scan", True, sample={"calls_scanned": n_scanned, "forbidden_prefixes": len(AMBIENT_PREFIXES)})
 
+    # ---------------------------------------------------------------- C10.4
+    # (shared with C14.7) what the session happens to have loaded is an ambient input too
+    rep.rule("C10.4", "no result depends on which modules happen to be loaded already (cache-only lookups)")
+    from rules.c14 import cache_only_lookup_rule
+    cache_only_lookup_rule(cx, rep, "C10.4")
     rep.rule("C10.3", "beff-core holds no process-lifetime mutable state (static / thread_local)")
     core_statics = [s for s in F.statics if s["crate"] == "beff_core"]
     for s in core_statics:
